@@ -385,12 +385,15 @@ func c05r3(c *Ctx) {
 	}
 	sort.Slice(fnList, func(i, j int) bool { return funcID(fnList[i]) < funcID(fnList[j]) })
 	for _, fn := range fnList {
-		for _, ws := range allWriterSites([]*ssa.Function{fn}) {
+		// inlined view: the release patch may sit in an extracted helper of the teardown function; it is
+		// judged at its real site with the facts imported from the helper's call sites
+		for _, xw := range p.writerSitesX(fn) {
+			ws := xw.WriterSite
 			if ws.Verb == "Delete" {
 				continue
 			}
 			site := ws.Call.Instr
-			fs := p.FactsAt(site.Block())
+			fs := p.FactsAtX(site.Block())
 			o := c.Ob(fn, "coowner-"+ws.Verb, site, c.rule.Statement)
 			if p.factOwnerTest(fs, "IsController", true, ws.Obj) {
 				o.Fail("unexpected non-delete write on the controller path of a teardown function")
